@@ -45,3 +45,53 @@ def _(fobj: "file", xor_keys: "opt[list[bytes]]", xordecode: "lit:True", all_xor
     ghost(loop_exit=0, do=[assert_(view_without_hits(E, fxor.nonce_offset, K))])
     ghost(before='yield config_block, {"xorkey": xorkey, "xorencoded": False}', do=[
         assert_(xorkey == K[k]), assert_(picks(E, K, k, config_block))])
+
+
+@contract("dissect.cobaltstrike.beacon:BeaconConfig.__init__", props=["C01", "C08", "C02"])
+def _(self: "newobj:BeaconConfig", config_block: "bytes"):
+    """a configuration object holds the block it was given and the settings decoded from it (iter_settings, C02);
+    key, flag and artefacts start unset; nothing else is touched; construction terminates and raises nothing"""
+    initializes(config_block=config_block, xorkey=None, xorencoded=False, pe_export_stamp=None, pe_compile_stamp=None,
+                architecture=None, guardrails=None)
+    ensures(snapshots(self.settings_tuple) == tlv(config_block, 0))
+    returns("none")
+
+
+@contract("dissect.cobaltstrike.beacon:BeaconConfig.from_file", props=["C01", "C08"])
+def _(cls: "class:dissect.cobaltstrike.beacon:BeaconConfig", fobj: "file", xor_keys: "opt[list[bytes]]", all_xor_keys: "lit:False"):
+    """default / caller-supplied keys (the all-keys retry is bounded): the configuration returned is built from the FIRST
+    candidate of iter_beacon_config_blocks - its block, the key used and the XorEncoded flag exactly as that contract
+    states them - or, when there is no candidate, from the first Guardrails item with an unmasked configuration;
+    only when neither exists the documented ValueError is raised; no other exception escapes and the call terminates."""
+    requires(implies(xor_keys is not None, forall(lambda j: len(xor_keys[j]) == 1, 0, len(xor_keys))))
+    modifies(fobj)
+    position_independent(fobj)
+    ghost(entry=True, do=[let("E", file_content(fobj)),
+                          let("K", [b"\x69", b"\x2e", b"\x00"] if (xor_keys is None or len(xor_keys) == 0) else xor_keys)])
+    raises(ValueError, when=no_hit_before(E, K, len(K)))
+    ensures(implies(result.guardrails is None, exists(lambda j: result.xorkey == K[j] and (
+        (result.xorencoded == True and exists(lambda off: xcandidate(E, off) and xok(E, off) and picks(xview(E, off), K, j, result.config_block),
+                                               0, len(E) + 1))
+        or (result.xorencoded == False and picks(E, K, j, result.config_block)
+            and (no_xor_view(E, 1024) or exists(lambda off: view_without_hits(E, off, K), 0, len(E) + 1)))), 0, len(K))))
+    ensures(implies(result.guardrails is not None, no_hit_before(E, K, len(K)) and result.xorkey == b"\x2e"))
+    ensures(snapshots(result.settings_tuple) == tlv(result.config_block, 0))
+    returns("obj:BeaconConfig")
+    loop(1, index="k", invariant=[file_content(fobj) == E])
+
+
+@contract("dissect.cobaltstrike.beacon:BeaconConfig.from_bytes", props=["C01", "C08", "C20"])
+def _(cls: "class:dissect.cobaltstrike.beacon:BeaconConfig", data: "bytes", xor_keys: "opt[list[bytes]]", all_xor_keys: "lit:False"):
+    """the same statement as from_file, for the data given as bytes"""
+    requires(implies(xor_keys is not None, forall(lambda j: len(xor_keys[j]) == 1, 0, len(xor_keys))))
+    ghost(entry=True, do=[let("E", data),
+                          let("K", [b"\x69", b"\x2e", b"\x00"] if (xor_keys is None or len(xor_keys) == 0) else xor_keys)])
+    raises(ValueError, when=no_hit_before(E, K, len(K)))
+    ensures(implies(result.guardrails is None, exists(lambda j: result.xorkey == K[j] and (
+        (result.xorencoded == True and exists(lambda off: xcandidate(E, off) and xok(E, off) and picks(xview(E, off), K, j, result.config_block),
+                                               0, len(E) + 1))
+        or (result.xorencoded == False and picks(E, K, j, result.config_block)
+            and (no_xor_view(E, 1024) or exists(lambda off: view_without_hits(E, off, K), 0, len(E) + 1)))), 0, len(K))))
+    ensures(implies(result.guardrails is not None, no_hit_before(E, K, len(K)) and result.xorkey == b"\x2e"))
+    ensures(snapshots(result.settings_tuple) == tlv(result.config_block, 0))
+    returns("obj:BeaconConfig")
